@@ -1715,11 +1715,72 @@ theorem fold_add_mul_U (tags : AList NT TagsU) :
       have := ih (a + w) r h
       rwa [Real.exp_add] at this
 
+theorem allSomeL_rel {β γ δ : Type} (f : β → Option γ) (g : β → Option δ) (h : γ → δ)
+    (hfg : ∀ x y, f x = some y → g x = some (h y)) :
+    ∀ (l : List β) (r : List γ), allSomeL f l = some r → allSomeL g l = some (r.map h) := by
+  intro l
+  induction l with
+  | nil => intro r hr; simp [allSomeL] at hr ⊢; subst hr; rfl
+  | cons a as ih =>
+    intro r hr
+    simp only [allSomeL] at hr ⊢
+    cases hfa : f a with
+    | none => simp [hfa] at hr
+    | some y =>
+      cases hrest : allSomeL f as with
+      | none => simp [hfa, hrest] at hr
+      | some ys =>
+        simp [hfa, hrest] at hr
+        subst hr
+        simp [hfg a y hfa, ih ys hrest]
+
+/-- `exp(log_probability t)` is what `ProbUGrammar.probability` (as implemented: rule weights
+    only) returns on the exponentiated tags -/
 theorem consistent_u (rules : AList NT (AList DP (List Alt))) (starts : List NT)
+    (tags : AList NT TagsU) (t : Prog) (lp : ℝ)
+    (h : logProbabilityU rules starts tags t = some lp) :
+    probabilityU rules starts (expTagsU tags) t = Real.exp lp := by
+  unfold logProbabilityU at h
+  unfold probabilityU
+  split at h
+  · simp at h
+  · rename_i rs hrs
+    have hstep : ∀ (S0 : NT) (r : List ℝ), reduceU rules (addTagU tags) (ExpLog.ofNat 0) t S0 = some r →
+        reduceU rules (mulTagU (expTagsU tags)) (ExpLog.ofNat 1) t S0 = some (r.map Real.exp) := by
+      intro S0 r hr
+      unfold reduceU at hr ⊢
+      refine allSomeL_rel _ _ Real.exp ?_ _ _ hr
+      intro d y hd
+      have := fold_add_mul_U tags d _ _ hd
+      simpa using this
+    rw [allSomeL_rel _ _ (List.map Real.exp) hstep starts rs hrs]
+    simp only []
+    rw [← List.map_flatten, List.head?_map, h]
+    rfl
+
+theorem foldlO_mul_scale (w : AList NT TagsU) (c : ℝ) :
+    ∀ (d : List StepU) (a r : ℝ), foldlO (mulTagU w) a d = some r →
+      foldlO (mulTagU w) (c * a) d = some (c * r) := by
+  intro d
+  induction d with
+  | nil => intro a r h; simp only [foldlO, Option.some.injEq] at h ⊢; rw [h]
+  | cons st rest ih =>
+    intro a r h
+    simp only [foldlO, mulTagU] at h ⊢
+    cases ht : tagU w st with
+    | none => simp [ht] at h
+    | some p =>
+      simp only [ht] at h ⊢
+      have := ih (a * p) r h
+      rwa [← mul_assoc] at this
+
+/-- relation to the full distribution: the derivation found begins at some start symbol `S0`,
+    and its probability including the start weight is `exp(start tag S0) · exp(log_probability t)` -/
+theorem consistent_u_start (rules : AList NT (AList DP (List Alt))) (starts : List NT)
     (tags : AList NT TagsU) (st : AList NT ℝ) (t : Prog) (lp : ℝ)
-    (h : logProbabilityU rules starts tags st t = some lp) :
-    ∃ S0 ∈ starts, ∃ d ∈ altsU rules t S0 [],
-      derivWeightU (expTagsU tags) (expStartU st) S0 d = some (Real.exp lp) := by
+    (h : logProbabilityU rules starts tags t = some lp) :
+    ∃ S0 ∈ starts, ∃ d ∈ altsU rules t S0 [], ∀ s, AList.lookup S0 st = some s →
+      derivWeightU (expTagsU tags) (expStartU st) S0 d = some (Real.exp s * Real.exp lp) := by
   unfold logProbabilityU at h
   split at h
   · simp at h
@@ -1728,18 +1789,16 @@ theorem consistent_u (rules : AList NT (AList DP (List Alt))) (starts : List NT)
     obtain ⟨r, hr, hlp⟩ := List.mem_flatten.mp hmem
     obtain ⟨S0, hS0, hf⟩ := forall₂_mem_right (allSomeL_forall₂ _ _ _ hrs) r hr
     refine ⟨S0, hS0, ?_⟩
-    cases hs : AList.lookup S0 st with
-    | none => simp [hs] at hf
-    | some s =>
-      simp only [hs] at hf
-      unfold reduceU at hf
-      obtain ⟨d, hd, hfd⟩ := forall₂_mem_right (allSomeL_forall₂ _ _ _ hf) lp hlp
-      refine ⟨d, hd, ?_⟩
-      unfold derivWeightU expStartU
-      rw [lookup_map_val (fun t : ℝ => (ExpLog.exp t : ℝ)) S0 st, hs]
-      simp only [Option.map_some]
-      have := fold_add_mul_U tags d _ _ hfd
-      simpa using this
+    unfold reduceU at hf
+    obtain ⟨d, hd, hfd⟩ := forall₂_mem_right (allSomeL_forall₂ _ _ _ hf) lp hlp
+    refine ⟨d, hd, ?_⟩
+    intro s hs
+    unfold derivWeightU expStartU
+    rw [lookup_map_val (fun t : ℝ => (ExpLog.exp t : ℝ)) S0 st, hs]
+    simp only [Option.map_some]
+    have h1 := fold_add_mul_U tags d _ _ hfd
+    have h2 := foldlO_mul_scale (expTagsU tags) (Real.exp s) d _ _ h1
+    simpa using h2
 
 theorem foldlO_map {β γ δ : Type} (f : β → δ → Option β) (g : γ → δ) (b : β) (l : List γ) :
     foldlO (fun b x => f b (g x)) b l = foldlO f b (l.map g) := by
